@@ -95,3 +95,13 @@ Fixpoint lcheck (s : lstate) (i : Z) (ops : list lop) : list Z :=
 
 (** 1700: ops *)
 Definition chk_lockhist : P (list Z) := ops <- plist plop ;; ret (lcheck linit 0 ops).
+
+(** 1701: the order of a Close with background work pending.  pending memtables, segment files present
+    at the instant the LOCK file was seen to be gone, segment files present when Close returned, result
+    code of Close, LOCK present afterwards.  Ownership is released last: whatever the handle still
+    writes, it writes while it holds the lock -- so nothing appears in the directory after the lock
+    has gone, the Close succeeds and everything pending has been written. *)
+Definition chk_close_order : P (list Z) :=
+  pending <- pz ;; at_unlock <- pz ;; at_end <- pz ;; code <- pz ;; la <- pbool ;;
+  let ok := (code =? 0) && negb la && (at_unlock =? at_end) && (pending <=? at_end) in
+  ret (verdict ok ok [at_unlock; at_end]).
